@@ -170,6 +170,11 @@ def scenarios_for(tier, rng, starts, scripts):
         for i, s in enumerate(starts):
             for k in (2, 4, 8):
                 alloc.append(short_alloc("short-%d-k%d" % (i, k), s, k))
+    # bursts across the wrap-around: 8 callers each draw a few identifiers at once, starting 1..6 below the
+    # 16-bit (and 32-bit) wrap, many times over -- the window between the increment and the zero handling
+    for b in range(3000 if q else 30000):
+        hi = 0xFFFF if b % 4 == 3 else rng.choice([0, 0, 1, rng.randrange(M16)])
+        alloc.append(dict(id="burst-%d" % b, kind="alloc", hi=hi, lo=M16 - 1 - (b % 6), callers=8, per=6, epochs=2, hold=2, via="base"))
     mix = ["sub", "pub1", "pub2", "unsub"]
     n = 2500 if q else 4000
     plans = [(near16, 1, 0), (near32, 8, 3), (rnd(), 64, 2), ((rng.randrange(M16), 0xFFFF - rng.randrange(n)), n, 0)]
